@@ -10,6 +10,7 @@ VERIF = os.path.dirname(os.path.dirname(os.path.abspath(__file__)))
 REPO = os.environ.get("WF_REPO", "/repo")
 CACHE = os.environ.get("WF_CACHE", os.path.join(VERIF, ".cache"))
 DRIVER = os.path.join(VERIF, "driver", "target", "release", "wf-facts-driver")
+SLOTS = int(os.environ.get("WF_TARGET_SLOTS", "4"))
 
 CONFIGS = {
     # cfg id -> cargo arguments
@@ -77,23 +78,42 @@ def build(cfg="default", repo=None, quiet=True):
     if os.path.exists(stamp):
         return out
     os.makedirs(CACHE, exist_ok=True)
-    lock = open(os.path.join(CACHE, "build-%s.lock" % cfg), "w")
-    fcntl.flock(lock, fcntl.LOCK_EX)
+    # one of a few reusable target dirs (registry dependencies stay compiled; workspace members
+    # are forced to rebuild by deleting their fingerprints, so the wrapper always runs)
+    lock = None
+    slot = 0
+    while lock is None:
+        for slot in range(SLOTS):
+            fh = open(os.path.join(CACHE, "target-%s-%d.lock" % (cfg, slot)), "w")
+            try:
+                fcntl.flock(fh, fcntl.LOCK_EX | fcntl.LOCK_NB)
+                lock = fh
+                break
+            except OSError:
+                fh.close()
+        if lock is None:
+            time.sleep(0.5)
+            if os.path.exists(stamp):
+                return out
     try:
         if os.path.exists(stamp):
             return out
-        # fresh target dir so cargo's freshness cache can never skip the wrapper
-        target = os.path.join(CACHE, "target-%s-%s-%d" % (cfg, key, os.getpid()))
-        shutil.rmtree(target, ignore_errors=True)
+        target = os.path.join(CACHE, "target-%s-%d" % (cfg, slot))
+        for fp in glob.glob(os.path.join(target, "debug", ".fingerprint", "*")):
+            base = os.path.basename(fp)
+            if base.startswith(("winter", "examples")):
+                shutil.rmtree(fp, ignore_errors=True)
+        tmp_out = out + ".tmp%d" % os.getpid()
+        shutil.rmtree(tmp_out, ignore_errors=True)
         shutil.rmtree(out, ignore_errors=True)
-        os.makedirs(out, exist_ok=True)
+        os.makedirs(tmp_out, exist_ok=True)
         env = dict(os.environ)
         env.update({
             "CARGO_INCREMENTAL": "0",
             "LD_LIBRARY_PATH": sysroot() + "/lib",
             "RUSTFLAGS": "-Zmir-opt-level=0 -Awarnings",
             "CARGO_NET_OFFLINE": "true",
-            "WF_FACTS_DIR": out,
+            "WF_FACTS_DIR": tmp_out,
             "WF_FACTS_CFG": cfg,
             "RUSTC_WORKSPACE_WRAPPER": DRIVER,
             "CARGO_TARGET_DIR": target,
@@ -103,22 +123,24 @@ def build(cfg="default", repo=None, quiet=True):
         cmd = ["cargo", "+nightly", "check", "--offline"] + CONFIGS[cfg]
         p = subprocess.run(cmd, cwd=repo, env=env, stdout=subprocess.PIPE,
                            stderr=subprocess.STDOUT, text=True)
-        shutil.rmtree(target, ignore_errors=True)
         if p.returncode != 0:
             sys.stderr.write(p.stdout[-6000:])
-            shutil.rmtree(out, ignore_errors=True)
+            shutil.rmtree(tmp_out, ignore_errors=True)
             raise RuntimeError("fact build failed for cfg %s (tree does not type-check?)" % cfg)
-        have = {os.path.basename(f).split("-")[0] for f in glob.glob(os.path.join(out, "*.json"))}
+        have = {os.path.basename(f).split("-")[0] for f in glob.glob(os.path.join(tmp_out, "*.json"))}
         missing = [c for c in EXPECTED_CRATES[cfg] if c not in have]
         if missing:
-            shutil.rmtree(out, ignore_errors=True)
+            shutil.rmtree(tmp_out, ignore_errors=True)
+            shutil.rmtree(target, ignore_errors=True)
             raise RuntimeError("fact files missing for crates %s (cfg %s)" % (missing, cfg))
+        os.makedirs(os.path.dirname(out), exist_ok=True)
+        os.rename(tmp_out, out)
         with open(stamp, "w") as fh:
             json.dump({"tree": key, "files_hashed": nfiles, "cfg": cfg,
                        "build_s": round(time.time() - t0, 1)}, fh)
-        # keep at most 6 distinct trees in the cache
+        # keep at most 40 distinct trees in the cache
         roots = sorted(glob.glob(os.path.join(CACHE, "facts", "*")), key=os.path.getmtime)
-        for old in roots[:-6]:
+        for old in roots[:-40]:
             if os.path.basename(old) != key:
                 shutil.rmtree(old, ignore_errors=True)
         return out
